@@ -12,6 +12,7 @@ type MS struct {
 	stores map[string]*T
 	parent *MS
 	id     int
+	label  string // root stores: name of the context that owns them
 }
 
 type CtxVal struct {
@@ -37,12 +38,25 @@ type World struct {
 	e            *Engine
 	msCount      int
 	snaps        []*T
-	reads        []*T
+	readLog      []readEntry
 	readKeys     map[int]bool
+	decodeLog    []decodeEntry
 	writes       []WriteRec
 	choiceValues map[string]interface{}
+	initial      map[string]*T
 	ghost        map[string]Value
 	calls        []CallRec
+}
+
+type readEntry struct {
+	store string
+	key   *T
+	init  *T // value in the initial (pre-state) array
+}
+type decodeEntry struct {
+	bz     *T
+	typ    string
+	leaves []encLeaf
 }
 
 type CallRec struct {
@@ -51,16 +65,31 @@ type CallRec struct {
 }
 
 func newWorld(e *Engine) *World {
-	return &World{e: e, choiceValues: map[string]interface{}{}, readKeys: map[int]bool{}, ghost: map[string]Value{}}
+	return &World{e: e, choiceValues: map[string]interface{}{}, readKeys: map[int]bool{}, initial: map[string]*T{}, ghost: map[string]Value{}}
 }
 
 // modelTerms: extra terms whose model values are requested on sat (store reads).
 func (w *World) modelTerms() []*T {
 	var out []*T
-	for _, r := range w.reads {
-		out = append(out, r)
+	for _, r := range w.readLog {
+		out = append(out, r.key, r.init)
+	}
+	for _, d := range w.decodeLog {
+		out = append(out, d.bz)
+		for _, l := range d.leaves {
+			out = append(out, l.t)
+		}
 	}
 	return out
+}
+
+func (w *World) rootArr(ms *MS, name string) *T {
+	w.arr(ms, name)
+	root := ms
+	for root.parent != nil {
+		root = root.parent
+	}
+	return w.initial[root.label+name]
 }
 
 func (w *World) newMS(parent *MS) *MS {
@@ -85,8 +114,9 @@ func (w *World) arr(ms *MS, name string) *T {
 	}
 	a, ok := root.stores[name]
 	if !ok {
-		a = Var("store0:"+name, ArrS)
+		a = Var("store0:"+root.label+name, ArrS)
 		root.stores[name] = a
+		w.initial[root.label+name] = a
 	}
 	for m := ms; m != nil && m != root; m = m.parent {
 		if _, has := m.stores[name]; !has {
@@ -99,9 +129,9 @@ func (w *World) arr(ms *MS, name string) *T {
 func (w *World) get(c *CtxVal, name string, key *T) *T {
 	a := w.arr(c.ms, name)
 	v := Select(a, key)
-	if v.Op == "select" && !w.readKeys[v.id] {
-		w.readKeys[v.id] = true
-		w.reads = append(w.reads, key, v)
+	if !w.readKeys[key.id] {
+		w.readKeys[key.id] = true
+		w.readLog = append(w.readLog, readEntry{store: name, key: key, init: mk("select", StrS, w.rootArr(c.ms, name), key)})
 	}
 	return v
 }
@@ -174,7 +204,11 @@ func init() {
 		t := Var(name+".timeNs", BVS(64))
 		// block height and time are positive int64 values
 		e.pc = append(e.pc, BVCmp("bvsgt", h, BVConst(0, 64)), BVCmp("bvsge", t, BVConst(0, 64)))
-		return &CtxVal{ms: w.newMS(nil), height: h, timeNs: t, chainID: Var(name+".chainID", StrS), flags: map[string]*T{}, vals: map[string]Value{}}
+		root := w.newMS(nil)
+		if name != "ctx" {
+			root.label = name + ":"
+		}
+		return &CtxVal{ms: root, height: h, timeNs: t, chainID: Var(name+".chainID", StrS), flags: map[string]*T{}, vals: map[string]Value{}}
 	})
 	reg("github.com/cosmos/cosmos-sdk/types.UnwrapSDKContext", func(e *Engine, fn *ssa.Function, a []Value) Value { return ctxOf(a[0]) })
 	reg(sc+"BlockHeight", pure(func(e *Engine, c *CtxVal, a []Value) Value { return c.height }))
